@@ -187,7 +187,7 @@ func (e *Engine) c9Done(key uint64) {
 // ---------------------------------------------------------------------------
 
 func (e *Engine) checkQuiescent(final bool) {
-	if !e.plan.Flags.Injective {
+	if !e.plan.Flags.Injective || e.closed || e.closing {
 		return
 	}
 	probe(PrQuiescent)
